@@ -239,6 +239,34 @@ func (e *FuncEnc) encodeAlloc(x *ssa.Alloc) {
 	s := e.newSym("alloc_"+mangle(x.Comment), "Int")
 	e.assume("true", fmt.Sprintf("(and (> %s 0) (= (akind %s) 0) (= (atime %s) (+ T0 %d)))", s, s, s, e.allocIdx))
 	e.val[x] = s
+	// an allocation executed inside a loop is a new object: it differs from every
+	// pointer / slice base carried around the loop (the static allocation times
+	// alone do not say so for objects made in earlier iterations)
+	if e.curBlock != nil {
+		for h, li := range e.loops {
+			if !li.body[e.curBlock] {
+				continue
+			}
+			for _, in := range h.Instrs {
+				phi, ok := in.(*ssa.Phi)
+				if !ok {
+					break
+				}
+				pv, have := e.val[phi]
+				if !have {
+					continue
+				}
+				switch e.D.SortOf(phi.Type()) {
+				case "Slice":
+					e.assume("true", not(eq(sx("sl_base", pv), s)))
+				case "Int":
+					if _, isPtr := phi.Type().Underlying().(*types.Pointer); isPtr {
+						e.assume("true", not(eq(pv, s)))
+					}
+				}
+			}
+		}
+	}
 	e.freshBufferFacts(x, s)
 	t := x.Type().Underlying().(*types.Pointer).Elem()
 	if e.private[x] {
